@@ -349,3 +349,57 @@ for _pid in ("C09", "C10", "C11", "C20"):
     PROPS[_pid]["modules"] = list(PROPS[_pid]["modules"]) + ["EdVerif.Ssa.Tie.Main"]
     PROPS[_pid]["needs_gen"] = sorted(set(list(PROPS[_pid].get("needs_gen", DEFAULT_NEEDS_GEN)) + ["ssa", "kernels"]))
     PROPS[_pid]["trusted_extra"] = list(PROPS[_pid].get("trusted_extra", [])) + [TIE_NOTE]
+
+# ---------------------------------------------------------------------------------------------------------------------------
+# Scoping (so that a change outside the functions a property is about does not break that property's obligations):
+#  * T5 ties are one module per function (Gen/Ties/<fn>.lean, written by tools/go2lean/tiesplit.go); a property lists the ties of
+#    its own functions (their callees' ties are imported by those modules) and its restatements Props/Regen/<id>.lean;
+#  * the purity obligation is scoped to the functions reachable from the property's exported operations
+#    (Props/Structural/Scoped/<id>.lean, EdVerif/Ssa/Scope.lean); C18 and C19 keep the whole-program fact Structural.Globals.
+def _ties(*fns):
+    return ["EdVerif.Gen.Ties." + f for f in fns]
+
+PROP_TIES = {
+    "C01": _ties("Point_ScalarMult", "Point_ScalarBaseMult", "Scalar_signedRadix16", "projLookupTable_FromP3", "affineLookupTable_FromP3", "nafLookupTable5_FromP3",
+                 "projLookupTable_SelectInto", "affineLookupTable_SelectInto") + ["EdVerif.Props.Regen.C01"],
+    "C02": _ties("Point_Add", "Point_Subtract", "Point_Negate", "Point_MultByCofactor", "Point_Set", "NewIdentityPoint", "NewGeneratorPoint") + ["EdVerif.Props.Regen.C02"],
+    "C04": _ties("Point_SetBytes", "NewIdentityPoint", "NewGeneratorPoint") + ["EdVerif.Props.Regen.C04"],
+    "C05": _ties("Point_Bytes", "Point_bytes", "Point_SetBytes") + ["EdVerif.Props.Regen.C05"],
+    "C06": _ties("Point_Equal", "field_Element_Equal") + ["EdVerif.Props.Regen.C06"],
+    "C07": _ties("Scalar_MultiplyAdd", "Scalar_Invert", "Scalar_Set", "NewScalar") + ["EdVerif.Props.Regen.C07"],
+    "C08": _ties("Scalar_Bytes", "Scalar_bytes", "Scalar_SetCanonicalBytes", "Scalar_SetUniformBytes", "Scalar_SetBytesWithClamping", "Scalar_setShortBytes", "isReduced")
+           + ["EdVerif.Props.Regen.ScalarSetters"],
+    "C09": _ties("field_Element_Invert", "field_Element_Pow22523", "field_Element_Negate", "field_Element_Absolute"),
+    "C10": _ties("field_Element_Equal", "field_Element_Negate", "field_Element_Absolute"),
+    "C11": ["EdVerif.Gen.FormulaTies", "EdVerif.Props.Regen.C11"],          # every function, every aliasing pattern
+    "C12": ["EdVerif.Gen.FormulaTies"],                                      # every operation of the API machine
+    "C13": _ties("Point_SetExtendedCoordinates", "Point_extendedCoordinates", "isOnCurve") + ["EdVerif.Props.Regen.C13"],
+    "C14": _ties("Point_SetBytes", "Point_SetExtendedCoordinates", "Scalar_SetCanonicalBytes", "Scalar_SetUniformBytes", "Scalar_SetBytesWithClamping")
+           + ["EdVerif.Props.Regen.SetBytes", "EdVerif.Props.Regen.SetExt", "EdVerif.Props.Regen.ScalarSetters"],
+    "C15": ["EdVerif.Props.Regen.C15"],
+    "C16": _ties("field_Element_SqrtRatio") + ["EdVerif.Props.Regen.C16"],
+    "C17": _ties("Point_BytesMontgomery", "Point_bytesMontgomery", "Point_ScalarBaseMult", "Scalar_SetBytesWithClamping") + ["EdVerif.Props.C17X", "EdVerif.Props.Regen.C17"],
+}
+FORMULA_NOTE2 = ("translator T5 tools/go2lean/formulas.go (symbolic execution of the go/ssa form of the functions above the kernels: point formulas, representation changes, "
+                 "group operations, encoders/decoders, table constructions and constant-time selections, digit recoding, the two constant-time scalar multiplications with their 64 "
+                 "iterations, the field's high layer incl. both addition chains, the scalar layer incl. the three fallible setters and Invert) and its table of primitive callees; "
+                 "each regenerated definition is proved equal to a specification in terms of the hand-written model by a generated tie (one module per function, every aliasing "
+                 "pattern of the pointer parameters), and the property theorems are restated on the regenerated definitions in Props/Regen/")
+for _pid, _c in PROPS.items():
+    _m = [m for m in _c["modules"] if m not in ("EdVerif.Gen.FormulaTies", "EdVerif.Props.Regenerated")]
+    if _pid in PROP_TIES:
+        _m = _m + PROP_TIES[_pid]
+        _c["needs_gen"] = sorted(set(list(_c.get("needs_gen", DEFAULT_NEEDS_GEN)) + ["formulas"]))
+        _c["trusted_extra"] = [t for t in _c.get("trusted_extra", []) if t != FORMULA_NOTE] + [FORMULA_NOTE2]
+    if _pid not in ("C18", "C19"):
+        _m = [m for m in _m if m != "EdVerif.Props.Structural.Globals"] + ["EdVerif.Props.Structural.Scoped." + _pid]
+    _c["modules"] = _m
+
+PROPS["C17"]["text"] = (PROPS["C17"]["text"] + " The last clause is proved as well (Props/C17X.lean): RFC 7748's X25519 function is written down as in the RFC (Spec/X25519.lean: "
+                        "clamping, Montgomery ladder with a24 = 121665 over ZMod p, z^(p-2), little-endian encodings); `ladder_base` proves that the ladder on u = 9 returns "
+                        "u([k]B) = (1+y)/(1-y) of the point [k]B of the twisted-Edwards group for every k < 2^255 (projective u-map, doubling and differential addition "
+                        "identities, loop invariant), `L_smul_basepoint` that B has order dividing l, and `C17_x25519` that for every 32-byte string x the model chain "
+                        "SetBytesWithClamping, ScalarBaseMult, BytesMontgomery returns X25519(x, 9); `C17_regen_x25519` states the same about the definitions regenerated "
+                        "from today's source by T5.")
+PROPS["C17"]["technique"] = ("Lean 4 proof (birational map; RFC 7748 ladder = u-coordinate of [k]B in the Edwards group) + generated ties of the regenerated functions + "
+                             "limb-exact correspondence + RFC 7748 oracle on generated keys")
